@@ -337,8 +337,42 @@ def run_direct(env, data, entries, expect_hang=(), idxdata=None, soft=None):
             worst, exc0, msg0 = oc, exc, f"reading entry {k + 1}" + (f": more than {RUNAWAY_LIMIT} base look-ups" if exc == "_Runaway" else "")
         if oc == "error" and worst == "ok":
             worst, exc0, msg0 = "error", exc, msg
+    # the same questions asked twice in a row of ONE long-lived store (cached Pack / PackData / index handles)
+    acc = []
+    if worst not in ("timeout", "fatal"):
+        def rep():
+            out = []
+            st = DiskObjectStore(d)
+            try:
+                for k, (h, off) in enumerate(entries):
+                    for _ in (0, 1):
+                        n = [0]
+
+                        def counted(self, offset, n=n):
+                            n[0] += 1
+                            if n[0] > RUNAWAY_LIMIT:
+                                raise _Runaway()
+                            return orig(self, offset)
+                        dp.PackData.get_object_at = counted
+                        try:
+                            t, rawc = st.get_raw(h.encode())
+                            out.append([f"raw{k}", "same" if L.oid(t, rawc).hex() == h else "differs", None])
+                        except (MemoryError, RecursionError):
+                            raise
+                        except Exception as e:       # noqa: BLE001
+                            out.append([f"raw{k}", "error", type(e).__name__])
+                        finally:
+                            dp.PackData.get_object_at = orig
+            finally:
+                st.close()
+            return out
+        oc, exc, msg, wall, v = timed(rep, soft=soft)
+        dp.PackData.get_object_at = orig
+        acc = v or []
+        if oc in ("timeout", "fatal"):
+            worst, exc0, msg0 = oc, exc, "repeated reads on one store" + (f": more than {RUNAWAY_LIMIT} base look-ups" if exc == "_Runaway" else "")
     shutil.rmtree(d, ignore_errors=True)
-    return {"path": "direct", "outcome": worst, "exc": exc0, "msg": msg0, "wall_ms": round(wall_total, 2), "per": per,
+    return {"path": "direct", "outcome": worst, "exc": exc0, "msg": msg0, "wall_ms": round(wall_total, 2), "per": per, "acc": acc,
             "pre": [], "post": [], "bad": [], "junk": []}
 
 
